@@ -44,10 +44,9 @@ RULE = (
     "query/key/value/mask as offset views and as transposed-dense views, float64 inputs on a float64 copy "
     "of the module, and inf / -inf / NaN KEYS at every masked key entry; (4) the module objects are "
     "long-lived (one per flavour and dim per worker, shared by all shapes, T and masks), and a history "
-    "pass drives ONE fresh object per flavour (6 single-head + 3 multi-headed) through every third of "
-    "those families with rank, batch shape, T and mask changing, dim reassigned through the public "
-    "attribute (multi-headed: also on the wrapped module), train/eval alternating - each result == a "
-    "fresh object's; (6) one larger instance: key (7,50,5,K), per-row / shared / no mask, full and "
+    "pass drives ONE fresh object per (flavour, dim) (6 single-head + 3 multi-headed) through every third "
+    "of those families with rank, batch shape, T and mask changing, train/eval alternating - each result "
+    "== a fresh object's; (6) one larger instance: key (7,50,5,K), per-row / shared / no mask, full and "
     "broadcast query, dim 1 and -3, all flavours incl. 4 heads (3 fixed permutations instead of 50!). "
     "On the same 687 families additionally: (7) argument identity - one tensor object as key and value "
     "(all 16 bias-flag subsets on the flag families), and the query as a view into the key's storage where "
@@ -58,6 +57,14 @@ RULE = (
     "multi-headed): torch.jit.script, torch.jit.trace (traced on the first input of each (dim, rank, mask "
     "given) class, run on the others) and modules built with float64 as default dtype on every fourth of "
     "those families == the plain float32 module. "
+    "(14) lifecycle pass per flavour (6 single-head + 3 multi-headed incl. a wrapped concat): for every dim "
+    "spelling (0,1,2,-2,-3; multi-headed non-negative) every guards.lifecycle_variants object (deepcopy, pickle, "
+    "torch.save, used+deepcopy, eval+deepcopy, state_dict, state_dict-after-use, double-float, "
+    "state_dict-into-other with other weights used before in eval/no_grad; plus load_state_dict and in-place "
+    "parameter copies into a module that stays in eval mode after a no_grad call) on up to 10 families (every rank "
+    "that has the spelling, T in {2,3}, batch sizes 1..2) x {a mask, no mask} == a fresh module with the "
+    "same weights. History pass: ONE object per (flavour, dim); reassigning the `__constants__` attribute dim "
+    "on a live object is executed and counted (constants_reassigned_honoured/ignored), never judged. "
     "Cases distinct by construction; non-trivial = T>=2."
 )
 ASSUMPTIONS = [
@@ -133,7 +140,7 @@ def _module(cfg, dim, seed, double=False):
     if key in _CACHE:
         return _CACHE[key]
     if double:
-        mod = copy.deepcopy(_module(cfg, dim, seed)).double()
+        mod = _new_module(cfg, dim, seed).double()  # built anew: no copy operation hidden in this clause
     else:
         mod = _new_module(cfg, dim, seed)
     _CACHE[key] = mod
@@ -572,28 +579,38 @@ def _set_dim(mod, cfg, dim):
         mod.single_head_attention.dim = dim  # documented as not kept in sync by the wrapper
 
 
-def _run_history(ctx, spec, tier, seed):
-    """ONE module object per flavour over a long life: key rank, batch shape, T and mask change from
-    call to call, dim is reassigned through the public attribute, train/eval is switched; every result
-    must equal that of a fresh object built with the same parameters for exactly this call."""
-    cfg = HIST_CFGS[spec["cfg"]]
-    api = API[cfg["kind"]]
+def _hist_families(cfg, ci, stride):
     fams = [f for f in _families("quick") if _extra_family(f) and (cfg["kind"] != "mha" or f["dim"] >= 0)]
-    fams = fams[spec["cfg"] % 3::3]
-    mod = _new_module(cfg, 0, seed)
+    return fams[ci % stride::stride]
+
+
+def _run_history(ctx, spec, tier, seed):
+    """ONE module object per (flavour, dim) over a long life: key rank, batch shape, T and mask change from
+    call to call, train/eval is switched; every result must equal that of a fresh object built with the
+    same parameters for exactly this call.  `dim` is a `__constants__` attribute: reassigning it on the
+    live object is executed and COUNTED only (new configurations come from new objects)."""
+    ci = spec["cfg"]
+    cfg = HIST_CFGS[ci]
+    api = API[cfg["kind"]]
+    fams = _hist_families(cfg, ci, 3)
+    live = {}
     for step, fam in enumerate(fams):
         q, k, v, m_shape = _data(fam, seed)
         q, k, v = _slice_for(cfg, q, k, v)
         variants = list(_mask_variants(m_shape, fam["tpos"], "quick"))
         mask = variants[step % len(variants)]
-        _set_dim(mod, cfg, fam["dim"])
+        dim = fam["dim"]
+        if dim not in live:
+            live[dim] = _new_module(cfg, dim, seed)
+        mod = live[dim]
         mod.train(step % 2 == 0)
         ctx.case(1, 1 if fam["T"] >= 2 else 0)
-        case = {"kind": "history", "cfg_index": spec["cfg"], "seed": seed, "step": step}
-        sig = {"api": api, "history": "one object, dim reassigned", "mask_given": mask is not None}
+        case = {"kind": "history", "cfg_index": ci, "seed": seed, "step": step}
+        sig = {"api": api, "history": "one object per dim; rank, shape, T, mask, train/eval vary",
+               "mask_given": mask is not None}
         try:
             out = _call(mod, q, k, v, mask)
-            fresh = _call(_new_module(cfg, fam["dim"], seed), q, k, v, mask)
+            fresh = _call(_new_module(cfg, dim, seed), q, k, v, mask)
         except Exception as e:
             ctx.violation(dict(sig, symptom="raises", type=type(e).__name__), case,
                           {"error": str(e)[-300:], "step": step, "family": fam})
@@ -602,8 +619,109 @@ def _run_history(ctx, spec, tier, seed):
             ctx.violation(dict(sig, symptom="reused-object-differs-from-fresh-object"), case,
                           {"step": step, "family": fam, "reused": out.tolist(), "fresh": fresh.tolist()})
             return
+        # a constant reassigned on ANOTHER live object: counted, never judged
+        if step % 7 == 0 and len(live) > 1:
+            other_dim = next(d for d in live if d != dim)
+            try:
+                _set_dim(live[other_dim], cfg, dim)
+                honoured = _close_t(_call(live[other_dim], q, k, v, mask), fresh)
+            except Exception:
+                honoured = False
+            ctx.count("constants_reassigned_honoured" if honoured else "constants_reassigned_ignored")
+            live[other_dim] = _new_module(cfg, other_dim, seed)
     ctx.count("history steps", len(fams))
-    ctx.sample({"part": "history", "flavour": cfg, "steps": len(fams)})
+    ctx.sample({"part": "history", "flavour": cfg, "steps": len(fams), "objects": len(live)})
+
+
+# ======================================================= object lifecycle (guards.lifecycle_variants)
+def _run_lifecycle(ctx, spec, tier, seed):
+    """Every lifecycle variant (deepcopy, pickle, torch.save, used+deepcopy, eval+deepcopy, state_dict,
+    state_dict-after-use, double-float, state_dict-into-other = a module with OTHER weights that was already
+    used in eval / no_grad and then loads the state dict) of every flavour x every dim spelling (negative
+    ones included) must give, on inputs of every rank that has the spelling (incl. an axis left of T), what a
+    fresh module with the same weights gives."""
+    ci = spec["cfg"]
+    cfg = HIST_CFGS[ci]
+    api = API[cfg["kind"]]
+    by_dim = {}
+    for fam in _hist_families(cfg, 0, 1):
+        by_dim.setdefault(fam["dim"], []).append(fam)
+    for dim, fams in sorted(by_dim.items()):
+        # a handful of inputs per dim: every rank, T >= 2 preferred, full and broadcasting patterns
+        picked, seen = [], set()
+        for fam in fams:
+            key = (fam["rank"], fam["tpos"], fam["T"], max(max(p) for p in fam["pats"]) if fam["pats"] else 0)
+            if key not in seen and fam["T"] != 1:
+                seen.add(key)
+                picked.append(fam)
+        picked = picked[:10]
+        inputs = []
+        for n, fam in enumerate(picked):
+            q, k, v, m_shape = _data(fam, seed)
+            q, k, v = _slice_for(cfg, q, k, v)
+            variants = list(_mask_variants(m_shape, fam["tpos"], "quick"))
+            inputs.append((q, k, v, variants[(n + 1) % len(variants)], fam))
+            inputs.append((q, k, v, None, fam))
+        if not inputs:
+            continue
+
+        def make():
+            return _new_module(cfg, dim, seed)
+
+        def make_other():
+            return _new_module(cfg, dim, seed + 7919)  # same shapes, other weights
+
+        def used(o):
+            o(*inputs[0][:4])
+        case = {"kind": "lifecycle", "cfg_index": ci, "seed": seed, "dim": dim}
+        try:
+            variants = list(GD.lifecycle_variants(make, used, None, make_other))
+        except GD.GuardViolation as e:
+            ctx.violation({"api": api, "symptom": "lifecycle-guard", "neg_dim": dim < 0}, case, {"error": str(e)})
+            continue
+        except Exception as e:
+            ctx.violation({"api": api, "symptom": "raises", "type": type(e).__name__, "lifecycle": "building variants",
+                           "neg_dim": dim < 0}, case, {"error": str(e)[-300:]})
+            continue
+        # evaluating several checkpoints with one module object: the receiving module stays in eval mode, was
+        # called under no_grad, and gets new weights by load_state_dict / by in-place copies (EMA swap) - no
+        # mode switch or .to() in between that could rebuild derived state by accident
+        try:
+            o1 = make_other()
+            _call(o1, *inputs[0][:4])
+            o1.load_state_dict(make().state_dict())
+            variants.append(("load_state_dict-after-eval-use", o1))
+            o2 = make_other()
+            _call(o2, *inputs[-1][:4])
+            with torch.no_grad():
+                src = dict(make().named_parameters())
+                for pname, par in o2.named_parameters():
+                    par.copy_(src[pname])
+            variants.append(("parameters-copied-in-place-after-eval-use", o2))
+        except Exception as e:
+            ctx.violation({"api": api, "symptom": "raises", "type": type(e).__name__,
+                           "lifecycle": "load_state_dict-after-eval-use", "neg_dim": dim < 0}, case,
+                          {"error": str(e)[-300:]})
+        fresh = make()
+        for name, obj in variants:
+            # (no obj.eval() here: a mode switch is itself an operation that may rebuild derived state)
+            for (q, k, v, mask, fam) in inputs:
+                ctx.case(1, 1)
+                sig = {"api": api, "lifecycle": name, "neg_dim": dim < 0, "mask_given": mask is not None}
+                try:
+                    out = _call(obj, q, k, v, mask)
+                    ref = _call(fresh, q, k, v, mask)
+                except Exception as e:
+                    ctx.violation(dict(sig, symptom="raises", type=type(e).__name__), dict(case, variant=name),
+                                  {"error": str(e)[-300:], "family": fam})
+                    break
+                if not _close_t(out, ref):
+                    ctx.violation(dict(sig, symptom="lifecycle-variant-differs-from-fresh-object"),
+                                  dict(case, variant=name),
+                                  {"family": fam, "variant": out.tolist(), "fresh": ref.tolist()})
+                    break
+        ctx.count("lifecycle variants", len(variants))
+    ctx.sample({"part": "lifecycle", "flavour": cfg, "dims": sorted(by_dim)})
 
 
 # ============================================= scripted / traced / float64-default variants
@@ -704,6 +822,7 @@ def shards(tier, seed):
     return ([{"part": "params"}, {"part": "large"}] +
             [{"part": "history", "cfg": i} for i in range(len(HIST_CFGS))] +
             [{"part": "modes", "cfg": i} for i in range(len(HIST_CFGS))] +
+            [{"part": "lifecycle", "cfg": i} for i in range(len(HIST_CFGS))] +
             [{"part": "families", "slice": i} for i in range(NSLICES)])
 
 
@@ -753,6 +872,9 @@ def run_shard(spec, tier, seed):
     if spec["part"] == "modes":
         _run_modes(ctx, spec, tier, seed)
         return ctx
+    if spec["part"] == "lifecycle":
+        _run_lifecycle(ctx, spec, tier, seed)
+        return ctx
     sl = spec["slice"]
     first = True
     for i, fam in enumerate(_families(tier)):
@@ -785,6 +907,9 @@ def replay(case):
     if case.get("kind") == "params":
         _CACHE.clear()
         _run_params(ctx, case["seed"])
+        return ctx
+    if case.get("kind") == "lifecycle":
+        _run_lifecycle(ctx, {"cfg": case["cfg_index"]}, "quick", case["seed"])
         return ctx
     if case.get("kind") == "modes":
         _run_modes(ctx, {"cfg": case["cfg_index"]}, "quick", case["seed"])
